@@ -72,6 +72,7 @@ struct Knobs {
     vt suffix = 120 * SEC;
     int keep_alive = 60;
     bool conformant = true;
+    int hostile_count_pct = 0, hostile_rc_pct = 0;   // SUBACK/UNSUBACK with wrong count; acks with inadmissible reason codes
 };
 
 ref::Props pub_props(vu::Rng& rng, bool rich) {
@@ -114,6 +115,7 @@ Scenario gen_mix(vu::Rng& rng, const Knobs& k, const std::string& family) {
     sc.bcfg.ack_delay_max = k.ack_delay_max ? (vt)rng.range(0, k.ack_delay_max) : 0;
     sc.bcfg.lose_session_pct = k.lose_session_pct;
     sc.bcfg.fail_rc_pct = k.fail_rc_pct; sc.bcfg.alt_success_rc_pct = k.alt_rc_pct; sc.bcfg.ack_props_pct = k.ack_props_pct;
+    sc.bcfg.suback_wrong_count_pct = k.hostile_count_pct; sc.bcfg.ack_bad_rc_pct = k.hostile_rc_pct;
     sc.net.chunking = rng.pick(std::vector<Chunking>{Chunking::whole, Chunking::whole, Chunking::bytewise, Chunking::random});
     if (rng.chance(1, 4)) sc.net.write_done_delay_max = (vt)rng.range(10 * US, 3 * MS);
     if (rng.chance(1, 4)) { sc.net.latency_min = 1 * MS; sc.net.latency_max = (vt)rng.range(2 * MS, 80 * MS); }
@@ -238,6 +240,8 @@ Knobs knobs_for(const std::string& family) {
     else if (family == "c11-mix") { k.keep_alive = 2; k.faults_max = 3; k.bad_attempts_max = 3; k.pubs_max = 8; k.ack_delay_max = 500 * MS; k.suffix = 60 * SEC; }
     else if (family == "c13-mix") { k.pubs_max = 4; k.subs = 2; k.faults_max = 3; k.lose_session_pct = 60; k.inbound = 2; }
     else if (family == "c14-mix") { k.pubs_max = 2; k.subs = 3; k.unsubs = 2; k.faults_max = 2; }
+    else if (family == "c14-hostile") { k.pubs_max = 2; k.subs = 3; k.unsubs = 2; k.faults_max = 1; k.inbound = 0; k.hostile_count_pct = 35; k.hostile_rc_pct = 15; }
+    else if (family == "c01-hostile-rc") { k.inbound = 0; k.qos_w[0] = 0; k.qos_w[1] = 1; k.qos_w[2] = 1; k.subs = 0; k.faults_max = 1; k.hostile_rc_pct = 20; }
     return k;
 }
 
@@ -867,6 +871,7 @@ int run_families(const FamilyCtx& ctx, vu::Result& res) {
         Knobs k = knobs_for("c01-mix");
         run_mix(j, k, "c01-mix", T ? 200000 : 4000);
         run_spurious(j, T ? 20000 : 600);
+        run_mix(j, knobs_for("c01-hostile-rc"), "c01-hostile-rc", T ? 40000 : 1000);
     } else if (P == "C02") {
         run_sweep(j, T ? 6 : 4, T, T ? std::vector<int>{0, 1, 2, 3} : std::vector<int>{0, 2});
         Knobs k = knobs_for("c02-mix");
@@ -915,6 +920,7 @@ int run_families(const FamilyCtx& ctx, vu::Result& res) {
     } else if (P == "C14") {
         Knobs k = knobs_for("c14-mix");
         run_mix(j, k, "c14-mix", T ? 150000 : 3000);
+        run_mix(j, knobs_for("c14-hostile"), "c14-hostile", T ? 60000 : 1500);
     } else {
         res.harness_error = "no simulator family for " + P;
         return 2;
